@@ -1317,11 +1317,13 @@ def step (s : State) (toks : List String) : State × String :=
     match nonce.toInt? with
     | some _ =>
       let cs := pattern.toList
-      if cs.isEmpty || cs.any (fun c => c != 'u' && c != 'd') then (s, "bad-op") else
-      let res := sendToAll false (fun (st : Unit) (c : Char) => (st, if c = 'u' then some c else none)) () cs
+      -- `l`: like `u`, the server's identity handed in as a literal (same key, address, URL; no `ID`):
+      -- which server is asked is decided by the identity given, not by its deprecated `ID` field
+      if cs.isEmpty || cs.any (fun c => c != 'u' && c != 'd' && c != 'l') then (s, "bad-op") else
+      let res := sendToAll false (fun (st : Unit) (c : Char) => (st, if c = 'u' || c = 'l' then some c else none)) () cs
       let cells := (cs.zip res.2.1).map fun (c, r) => s!"{c}:" ++ (match r with | some _ => "own" | none => "nil")
       -- the first `u` is the server the `ws` / `cstate` ops talk to: one answered `Send` of this client object
-      let s' := if cs.contains 'u' then sendThrough s _client "C14Who" [] true else s
+      let s' := if cs.contains 'u' || cs.contains 'l' then sendThrough s _client "C14Who" [] true else s
       (s', s!"len={res.2.1.length} " ++ " ".intercalate cells ++ (if res.2.2 = 0 then " noerr" else " err"))
     | none => (s, "bad-op")
   | ["reg", api, sig] =>
